@@ -92,6 +92,7 @@ func termUnit(c *Ctx, src string, txts []string, nullable bool) {
 		if pi != nil && pi.Site == "STEP-BUDGET" {
 			c.Violation("NONTERMINATION step budget", fmt.Sprintf("%q on %q: more than %d VM instructions", src, t, stepBudgetC10),
 				map[string]any{"kind": "steps", "src": src, "text": t, "budget": stepBudgetC10})
+			c.Expensive()
 			return
 		}
 		if pi != nil {
@@ -152,8 +153,18 @@ func runC10(c *Ctx) {
 			}
 		}
 	}
+	if c.Level("D7r:recursion") {
+		t2 := texts(alphaD2, 3)
+		for _, p := range d7rPrograms() {
+			src := p.Source("find all")
+			if c.Unit(func() string { return src }) {
+				c.Count("programs", 1)
+				termUnit(c, src, t2, true)
+			}
+		}
+	}
 	if c.Level("D7:fixed") {
-		long := append(texts("a\n", 5), "aaaaaaaa", "a\na\na\n", "aaaa\n\n\naaaa")
+		long := append(texts("a\n", 5), "aaaaaa", "a\na\na\n", "aaa\n\n\naaa")
 		for _, p := range d7Fixed() {
 			src := p.Source("find all")
 			if c.Unit(func() string { return src }) {
